@@ -1,6 +1,7 @@
 use crate::engine::{Ctx, PropInfo, Verdict};
 use serde_json::Value;
 
+pub mod c06;
 pub mod c17;
 
 pub struct PropDef {
@@ -12,7 +13,7 @@ pub struct PropDef {
 }
 
 pub fn all() -> Vec<PropDef> {
-    vec![c17::def()]
+    vec![c06::def(), c17::def()]
 }
 
 pub fn find(id: &str) -> Option<PropDef> {
